@@ -5,6 +5,14 @@ HERE = os.path.dirname(os.path.dirname(os.path.abspath(__file__)))
 ALL = ["C%02d" % i for i in range(1, 21)]
 # id -> (technique, level text, level note, design ref)
 CHECKS = {
+ "C13": ("bounded-exhaustive enumeration of filter rule lists x trees x arrangements as real sessions, compared with a reference first-match filter",
+         "every rule list of length <=2 (thorough <=3) over {exclude, include} x 6 names spelled via --exclude/--include/-f on 3 trees (names recurring at depths 1-3, files and directories in every sort position) in all 5 arrangements: destination entry set and bytes must equal the reference selection; wildcard rules must produce an error in every arrangement",
+         "plain-name rules only, as the property states; reference filter = first rule whose name equals the base name",
+         "DESIGN.md §5 C13"),
+ "C09": ("bounded-exhaustive enumeration of destination trees (every subset of <=3 extraneous entries per directory in every sort position) x --delete x exclude x I/O-error x arrangements as real sessions, compared with a reference deletion model",
+         "source {a,c,e,d/,d/a,d/c}; destinations with listed entries (up to date/stale/missing) plus all subsets of extraneous {0,b,f,z/} and {d/0,d/b,d/z} (thorough: files, non-empty directories, symlinks, fifos) x --delete on/off x exclude {none,b,z} x sender I/O error (vanished source argument; scripted sender flag in both receiver roles) x 5 arrangements; entry set after success must equal listed + protected, nothing removed without --delete or with the I/O error flag, canary outside untouched",
+         "entries below an extraneous, unprotected directory may either go with it or stay with their ancestors (both readings accepted); directory-contents form only",
+         "DESIGN.md §5 C09"),
  "C11": ("bounded-exhaustive enumeration of real sessions over value pools: all 512 permission values on files and directories, boundary mtimes, link targets, device numbers, owners x every preserve-option subset x 5 arrangements x prior destination states; non-root workers for read-only directory trees",
          "perms 0000..0777 on files and directories x 6 option sets x 5 arrangements x 3 prior states; 10 boundary mtimes (pre-1970, sub-second, 2^31-1, 'just now'), 8 link targets up to 4095 bytes, 16 rdevs x {chr,blk}, fifo, socket, 4 owners x all 64 subsets of {-p,-t,-l,-D,-o,-g} x 5 arrangements x 3 prior states; uid-65534 workers receive nested directories lacking owner write permission (5x5x2 mode combinations); every destination entry is lstat-compared with the source under the property's per-option rules",
          "runs as root on tmpfs for owner/device cases, as uid 65534 for the read-only-directory cases; id mapping by name across hosts is not demanded",
